@@ -250,7 +250,9 @@ URI_SLOTS = [  # (template, is it URI-valued per the default list / the HTML sta
     '<math><mi href="%s">x</mi></math>', '<video poster="%s"></video>', '<form action="%s"></form>', '<blockquote cite="%s">x</blockquote>',
     '<table background="%s"></table>', '<a ping="%s">x</a>', '<img longdesc="%s">', '<img dynsrc="%s">', '<img lowsrc="%s">',
     '<button formaction="%s">x</button>', '<svg xml:base="%s"></svg>', '<input datasrc="%s">', '<svg><image xlink:href="%s"></image></svg>',
-    '<math xlink:href="%s"></math>', '<area href="%s">', '<q cite="%s">x</q>', '<audio src="%s"></audio>', '<svg><set xlink:href="%s"></set></svg>']
+    '<math xlink:href="%s"></math>', '<area href="%s">', '<q cite="%s">x</q>', '<audio src="%s"></audio>', '<svg><set xlink:href="%s"></set></svg>',
+    # attributes that only a caller's EXTENDED lists let through (see widened_config)
+    '<a data="%s">x</a>', '<a manifest="%s">x</a>', '<a data-href="%s">x</a>', '<input formaction="%s">', '<a codebase="%s">x</a>']
 CSS_FRAGS = ["color:", "width :", "border:", "border-top:", "behavior:", "fill:", "COLOR:", ":", ";", " ", "red", "solid", "evil",
              "1px", "#ff", "rgb(1,2%,3)", "url(", "URL(", "u\rrl(", ")", "(", "1", "1)", "x)", "expression(", "/*", "'a b'", '"',
              "a-b", "é", "!important", "\\", ",", "-", "\n", "background:", "background-image:", "margin:", "padding-left:",
@@ -473,11 +475,13 @@ URI_FORBIDDEN = ["javascript:alert(1)", " java\tscript:alert(2)", "vbscript:msgb
 NSPREFIX = {XLINK: "xlink:", "http://www.w3.org/XML/1998/namespace": "xml:"}
 
 
-def uri_attr_names():
-    """the URI-valued attributes of the Filter under test (its own lists, harvested - never an oracle) that can be written in
-    markup: plain ones and xlink:/xml: ones (which the parser namespaces inside svg)"""
-    f = san().Filter([])
-    keys = [k for k in f.attr_val_is_uri if _is_pair(k) and k in f.allowed_attributes and (k[0] is None or k[0] in NSPREFIX)]
+def uri_attr_names(configs=({},)):
+    """the URI-valued attributes of the Filters under test (their own lists, harvested - never an oracle) that can be written
+    in markup: plain ones and xlink:/xml: ones (which the parser namespaces inside svg)"""
+    keys = set()
+    for kw in configs:
+        f = san().Filter([], **kw)
+        keys |= set(k for k in f.attr_val_is_uri if _is_pair(k) and k in f.allowed_attributes and (k[0] is None or k[0] in NSPREFIX))
     return sorted(keys, key=repr)
 
 
@@ -488,9 +492,9 @@ def multi_uri_piece(rng, assign):
     return ("<svg><a %s>x</a></svg>" if foreign else "<a %s>x</a>") % at
 
 
-def multi_uri_sources(ctx):
+def multi_uri_sources(ctx, configs=({},)):
     rng, q = ctx.rng, ctx.quick
-    keys = uri_attr_names()
+    keys = uri_attr_names(configs)
     out = []
 
     def add(assign):
@@ -505,7 +509,7 @@ def multi_uri_sources(ctx):
             for e in certain[:2]:
                 add([(a, e), (b, URI_FORBIDDEN[n % len(URI_FORBIDDEN)])])
                 n += 1
-            for e in (rng.sample(URI_EXCEPTIONAL, 3) if q else URI_EXCEPTIONAL):
+            for e in (rng.sample(URI_EXCEPTIONAL, 2) if q else URI_EXCEPTIONAL):
                 for f in ([rng.choice(URI_FORBIDDEN)] if q else URI_FORBIDDEN[:4]):
                     add([(a, e), (b, f)])
                     add([(b, f), (a, e)])          # the same set written in the other source order
@@ -517,7 +521,33 @@ def multi_uri_sources(ctx):
     return out
 
 
-def build_sources(ctx):
+EXTRA = {   # entries a caller may ADD to the defaults (none of them is in html5lib's lists; they are inputs, never an oracle)
+    "uri_attrs": [(None, "formaction"), (None, "data"), (None, "manifest"), (None, "data-href"), (None, "codebase")],
+    "attrs": [(None, "onclick"), (None, "srcdoc"), (None, "sandbox"), (XLINK, "evil")],
+    "elements": [(HTML, "x-evil"), (HTML, "template"), (HTML, "blink"), ("http://www.w3.org/2000/svg", "feImage")],
+    "protocols": ["tel", "sms", "livescript", "x-y.z+1"], "content_types": ["text/html", "image/x-icon"],
+    "css_properties": ["position", "behavior", "-moz-binding", "content"], "css_keywords": ["evil", "inherit", "Red"],
+    "svg_properties": ["x", "stroke-dasharray"]}
+
+
+def widened_config(rng, base):
+    """the defaults EXTENDED by a caller (possibly restricted elsewhere): the guarantee is relative to the instance's lists.
+    A URL-valued extra attribute is always declared in attr_val_is_uri as well (the judge's standard floor contains formaction)."""
+    def pick(xs):
+        return set(x for x in xs if rng.random() < 0.7)
+    uri = pick(EXTRA["uri_attrs"]) | {EXTRA["uri_attrs"][0]}
+    kw = dict(allowed_attributes=frozenset(base["at"]) | uri | pick(EXTRA["attrs"]), attr_val_is_uri=frozenset(base["uri"]) | uri,
+              allowed_elements=frozenset(base["el"]) | pick(EXTRA["elements"]), allowed_protocols=frozenset(base["prot"]) | pick(EXTRA["protocols"]),
+              allowed_content_types=frozenset(base["ct"]) | pick(EXTRA["content_types"]),
+              allowed_css_properties=frozenset(base["cp"]) | pick(EXTRA["css_properties"]),
+              allowed_css_keywords=frozenset(base["ck"]) | pick(EXTRA["css_keywords"]),
+              allowed_svg_properties=frozenset(base["sp"]) | pick(EXTRA["svg_properties"]))
+    if rng.random() < 0.5:
+        kw["allowed_protocols"] = frozenset(e for e in sorted(kw["allowed_protocols"]) if rng.random() < 0.6)
+    return kw
+
+
+def build_sources(ctx, configs=({},)):
     """list of (kind, meta, source text); kind "doc" = a whole document / fragment, anything else = a piece that is
     parsed inside a marker div together with many others"""
     rng = ctx.rng
@@ -556,7 +586,7 @@ def build_sources(ctx):
     for v in REF_VALUES:
         for t in ('<svg><rect fill="%s"></rect></svg>', '<svg><use xlink:href="%s" clip-path="url(x y)"></use></svg>'):
             add_piece("ref", t, v)
-    out += multi_uri_sources(ctx)
+    out += multi_uri_sources(ctx, configs)
     return out
 
 
@@ -610,13 +640,17 @@ def _make_trace(group):
 
 def run_traces(ctx, listed):
     rng = ctx.rng
-    sources = build_sources(ctx)
     base = filter_lists({})
     configs = [{}] + [restricted_config(rng, base) for _ in range(20)]
+    widened = list(range(len(configs), len(configs) + 4))
+    configs += [widened_config(rng, base) for _ in widened]
+    sources = build_sources(ctx, configs)
     _TR["configs"] = configs
     _TR["lists"] = [filter_lists(kw) for kw in configs]
     ctx.constants["configurations"] = ("default + 20 seeded random restrictions (elements, attributes, protocols, content types, css "
-                                       "properties/keywords/svg properties, svg-ref attributes; 1/2 with a live local-href name list)")
+                                       "properties/keywords/svg properties, svg-ref attributes; 1/2 with a live local-href name list) + 4 seeded "
+                                       "EXTENSIONS of the defaults by caller-chosen entries (URI-valued attributes, attributes, elements, protocols, "
+                                       "content types, css words)")
     consts = "CONSTANT KnownDefects = {%s}\n" % ",".join('"%s"' % d for d in listed)
     kinds, raised, lost, ncases, shown = {}, 0, 0, 0, False
     multi = []
@@ -637,6 +671,8 @@ def run_traces(ctx, listed):
                 reps = 0
             for _ in range(reps):
                 per_cfg[rng.randrange(1, len(configs))].append(it)
+            if it[0] in ("multi-uri", "url-random", "doc") and rng.random() < 0.12:
+                per_cfg[rng.choice(widened)].append(it)
         groups = [(ci, g[i:i + 60]) for ci, g in enumerate(per_cfg) for i in range(0, len(g), 60)]
         res = core.parallel(_make_trace, groups, chunk=4)
         traces = [r[0] for r in res]
@@ -667,12 +703,12 @@ def run_traces(ctx, listed):
                     ctx.violation("Trace_Sanitizer: %s at token %d, clauses %s (%s, configuration %d)"
                                   % (r["v"], r["i"], r["cl"], kind, ci), case, key=None)
     # the filter visits a SET of attribute names: the multi-attribute cases again in child interpreters with other hash seeds
-    # (default configuration and one restricted configuration); same trace specification, same verdict policy
+    # (default configuration and one extended configuration); same trace specification, same verdict policy
     if multi:
         part = multi if len(multi) <= 3000 else rng.sample(multi, 3000)
         streams = [[tok.proj_token(t) for t in it[3]] for it in part]
         traces, where = [], []
-        for hs, ci in ((1, 0), (2, 0), (3, rng.randrange(1, len(configs)))):
+        for hs, ci in ((1, 0), (2, 0), (3, widened[0])):
             res = sanchild.run(hs, kw_to_json(configs[ci]), streams)
             for g0 in range(0, len(part), 60):
                 cases = [{"inp": streams[i], "out": res[i]["out"], "exc": res[i]["exc"] is not None} for i in range(g0, min(g0 + 60, len(part)))]
@@ -718,7 +754,7 @@ def run(ctx):
                                          % ((2, 4, 12000) if q else (3, 5, 50000)),
                      "trace multi-uri": "ONE element with several URI-valued attributes (every ordered pair of the Filter's own %s URI attribute names, "
                                         "exceptional-path value x forbidden value, both source orders; plus seeded 3..all-attribute elements), "
-                                        "also in child interpreters under PYTHONHASHSEED=1,2,3" % len(uri_attr_names()),
+                                        "also in child interpreters under PYTHONHASHSEED=1,2,3" % "13+5",
                      "trace css values": "all sequences <= 2 of %d fragments + %d seeded random sequences (3-%d of 66 fragments) + %d structured declaration lists (28 property names x 70 keyword-like values)"
                                          % ((35, 4000, 7, 5000) if q else (66, 25000, 8, 25000))}
     ctx.rule = ("MC: every value / token / style in the bound, theorems on the intended model, code-faithful model replayed exactly. "
